@@ -11,5 +11,5 @@ CONSTANTS
   MaxRules = 0
   Triggers = {0, 1, 2}
 VIEW view
-INVARIANTS TypeOK QpsOK AvgRtOK MinRtOK PeakOK ConcOK LoneRequestNeverShed AllBBRWeaker AllUnsampledNeverBlocks AllMonotoneInTrigger
+INVARIANTS TypeOK QpsOK AvgRtOK MinRtOK PeakOK ConcOK ErrOK LoneRequestNeverShed AllBBRWeaker AllUnsampledNeverBlocks AllMonotoneInTrigger
 CHECK_DEADLOCK FALSE
